@@ -91,6 +91,24 @@ def gen_svg(rng, tag, rewriting=False):
         f'<g transform="translate({rng.randrange(0, 9)},2)" fill="inherit"><rect width="5" height="5"/></g>',
     ]
     chosen = rng.sample(shapes, rng.randrange(2, len(shapes) + 1))
+    # text (always): the drawing code keeps a text cursor on the SVG object while it walks the tree - hidden and
+    # undisplayed <text> with visible children, <text> positioned only by dx / dy / transform, x lists, spacing, anchors.
+    # No collapsible white space (that is the known finding svg-rewrites-element-tree).
+    visibility = rng.choice(['hidden', 'collapse'])
+    chosen += [f'<text x="{rng.randrange(2, 9)}" y="12" font-size="8" visibility="{visibility}">ab'
+               f'<tspan visibility="visible">cd</tspan></text>',
+               f'<text font-size="8" dy="{rng.randrange(20, 28)}" transform="translate(4,0)">ef'
+               f'<tspan dx="2" dy="{rng.randrange(1, 5)}">gh</tspan></text>',
+               f'<text x="10 20 30" y="50" font-size="8" letter-spacing="{rng.choice([0, 1, 2])}" '
+               f'text-anchor="{rng.choice(["start", "middle", "end"])}">ijk</text>',
+               '<text x="60" y="50" font-size="8" display="none">zz<tspan>y</tspan></text>',
+               f'<text font-size="8" transform="translate({rng.randrange(60, 80)},30)">lm</text>']
+    # what the walk leaves behind is what its LAST element leaves, and the FIRST element is the one that would see it on
+    # the next walk of the same object: a <text> without x / y first, a hidden <text> with a visible child last
+    chosen = ([f'<text font-size="8" dy="{rng.randrange(8, 12)}" transform="translate(90,0)">n'
+               f'<tspan dy="2">o</tspan></text>'] + chosen +
+              [f'<text x="100" y="{rng.randrange(40, 56)}" font-size="8" visibility="hidden">p'
+               f'<tspan visibility="visible">qr</tspan></text>'])
     if rewriting:
         chosen += [f'<rect x="4" y="44" width="40" height="12" fill="url(#{ident("p")})"/>',
                    f'<rect x="50" y="44" width="40" height="12" mask="url(#{ident("m")})"/>',
@@ -270,6 +288,28 @@ def gen_ua_doc(rng, flip=False):
         blocks.append(f'<blockquote>{element(0)}</blockquote><pre>{rng.choice(words)}</pre><h2>{element(1)}</h2>')
     return ('<html lang="en"><head><title>ua</title><style>@page{size:200px 160px;margin:10px}</style></head><body>' +
             ''.join(blocks) + '</body></html>')
+
+
+def gen_counter_family(rng, number):
+    """Documents whose lists use counter styles that EXTEND another style (predefined: lower-latin / upper-latin /
+    decimal-leading-zero; an author style, defined alike in every document), identical but for one thing: some redefine
+    the extended style (lower-alpha / upper-alpha / decimal) with @counter-style.  The UA styles are written again into
+    the CounterStyle of every render, so with one CounterStyle object shared by the renders each document still gives
+    what it gives alone: whatever is resolved from the dictionary is resolved from the dictionary of this render."""
+    base, extending = rng.choice([('lower-alpha', 'lower-latin'), ('upper-alpha', 'upper-latin'),
+                                  ('decimal', 'decimal-leading-zero')])
+    own = f'own{number}'
+    items = ''.join(f'<li>{rng.choice(["ab", "c", "def"])}</li>' for _ in range(rng.randrange(2, 5)))
+    body = (f'<ol style="list-style-type:{extending}">{items}</ol><ol style="list-style-type:{own}">{items}</ol>'
+            f'<p style="counter-increment:c 3">x<span style="content:counter(c, {extending})"></span></p>'
+            f'<ol style="list-style-type:{base}"><li>z</li></ol>')
+    style = ('@page{size:200px 150px;margin:8px}html,body{margin:0}body{font-family:weasyprint;font-size:8px}'
+             f'@counter-style {own}{{system:extends {base};suffix:") "}}')
+    redefinitions = [f'@counter-style {base}{{system:cyclic;symbols:"#" "+";suffix:" "}}',
+                     f'@counter-style {base}{{system:fixed;symbols:"x" "y" "z" "w" "v";suffix:"/"}}']
+    head = '<html lang="en"><head><title>c</title><style>'
+    return [head + extra + style + '</style></head><body>' + body + '</body></html>'
+            for extra in ['', redefinitions[0], redefinitions[1]]]
 
 
 def gen_binding_pair(rng, number):
